@@ -64,6 +64,13 @@ fn gen(rng: &mut Rng, tier: Tier) -> Vec<Case> {
             let d = u64::MAX - 1 - rng.below(3) - m;
             a.shift_up(d); b.shift_up(d);
         }
+        if i % 7 == 3 { // each set also gets an interval longer than half the coordinate range: cov(a) + cov(b) > u64::MAX
+            let va = a.init.len() as u64 + 100; let vb = b.init.len() as u64 + 100;
+            let (sa, sb) = (rng.below(6), rng.below(6));
+            let (ea, eb) = ((1u64 << 63) + rng.below(9), if rng.chance(1, 3) { u64::MAX - rng.below(3) } else { (1u64 << 63) + rng.below(9) });
+            if rng.chance(1, 2) { a.init.push((sa, ea, va)); } else { a.ops.insert(0, Op::Insert(sa, ea, va)); }
+            if rng.chance(1, 2) { b.init.push((sb, eb, vb)); } else { b.ops.push(Op::Insert(sb, eb, vb)); }
+        }
         out.push(Case::new(if small { "boundary" } else { "random" }, enc(&C { a, b })));
     }
     out
@@ -72,7 +79,7 @@ fn gen(rng: &mut Rng, tier: Tier) -> Vec<Case> {
 pub fn prop() -> PropDef {
     PropDef {
         id: "C19",
-        rule: "corpus, then pairs of histories new/insert*/merge_overlaps/set_cov (set_cov before later inserts and merges included) over non-empty intervals: small (0-5 intervals each, coordinates 0..20, incl. empty, identical, disjoint, interleaved, nested) and large (3-60 each, offsets up to 2^63); all four merged/unmerged combinations forced in rotation; every sixth pair lifted together to the top of u64. Non-trivial: both sides non-empty and some side has two touching/overlapping intervals. Thorough adds the exhaustive small scope: all pairs of sequences of <= 2 non-empty intervals over 0..=3 in histories with merges and set_cov. Distinct = distinct input token sequence.",
+        rule: "corpus, then pairs of histories new/insert*/merge_overlaps/set_cov (set_cov before later inserts and merges included) over non-empty intervals: small (0-5 intervals each, coordinates 0..20, incl. empty, identical, disjoint, interleaved, nested) and large (3-60 each, offsets up to 2^63); all four merged/unmerged combinations forced in rotation; every sixth pair lifted together to the top of u64; every seventh pair gets on each side an interval longer than half the u64 range (cov(a) + cov(b) > u64::MAX). Non-trivial: both sides non-empty and some side has two touching/overlapping intervals. Thorough adds the exhaustive small scope: all pairs of sequences of <= 2 non-empty intervals over 0..=3 in histories with merges and set_cov. Distinct = distinct input token sequence.",
         observable: "Lapper::cov of both sets, union_and_intersect both ways, union, intersect",
         gen, exec, shrink, child: None,
     }
